@@ -961,9 +961,10 @@ class CSSSerializer:
                             out.append(';')
                         out.append(separator)
                 elif isinstance(val, cssutils.css.CSSUnknownRule):
-                    # @rule
-                    out.append(val.cssText)
-                    out.append(separator)
+                    # @rule, empty if prefs.keepUnknownAtRules is off
+                    if val.cssText:
+                        out.append(val.cssText)
+                        out.append(separator)
                 else:
                     # ?
                     out.append(val)
